@@ -292,18 +292,27 @@ func checkSignVerify(r *Rng) {
 					return strings.Join(s, ";") + text(kc)
 				}
 				before := snap()
-				sig := &dns.RRSIG{KeyTag: key.KeyTag(), SignerName: "example.org.", Algorithm: dns.ED25519, Inception: 1700000000, Expiration: 1800000000}
-				if err := sig.Sign(priv, rrset); err != nil {
-					continue
-				}
-				st["sign_verify_checked"]++
-				if snap() != before {
-					Viol("C16/readonly-mutates/Sign", "RRSIG.Sign changed the RRset or key", map[string]string{"before": before, "after": snap()})
-					before = snap()
-				}
-				_ = sig.Verify(key, rrset)
-				if snap() != before {
-					Viol("C16/readonly-mutates/Verify", "RRSIG.Verify changed the RRset or key", map[string]string{"before": before, "after": snap()})
+				for _, signer := range []string{"example.org.", "eXample.ORG."} {
+					sig := &dns.RRSIG{KeyTag: key.KeyTag(), SignerName: signer, Algorithm: dns.ED25519, Inception: 1700000000, Expiration: 1800000000}
+					if err := sig.Sign(priv, rrset); err != nil {
+						continue
+					}
+					st["sign_verify_checked"]++
+					if snap() != before {
+						Viol("C16/readonly-mutates/Sign", "RRSIG.Sign changed the RRset or key", map[string]string{"before": before, "after": snap()})
+						before = snap()
+					}
+					// Verify: the RRset, the key AND the signature record itself stay as they were
+					sigSnap := func() string {
+						c := dns.Copy(sig)
+						c.Header().Rdlength = 0
+						return text(c)
+					}
+					sigBefore := sigSnap()
+					_ = sig.Verify(key, rrset)
+					if snap() != before || sigSnap() != sigBefore {
+						Viol("C16/readonly-mutates/Verify", "RRSIG.Verify changed the RRset, the key or the signature record", map[string]string{"before": before + sigBefore, "after": snap() + sigSnap()})
+					}
 				}
 			}
 		}
